@@ -176,6 +176,10 @@ class Gen:
             return [S("concat"), Q(S("vector")), self.seq_(d - 1), self.seq_(d - 1)]
         if c == 5:
             return [S(r.choice(["select", "reject"])), Q(S("vector")), [S("lambda"), [S("e")], [S(">"), S("e"), self.int_(0)]], self.seq_(d - 1)]
+        if r.random() < 0.5:
+            return r.choice([[S("slice"), Q(S("vector")), self.seq_(d - 1), r.randrange(0, 3), r.randrange(0, 4)],
+                             [S("insert-index"), Q(S("vector")), self.seq_(d - 1), r.randrange(0, 3), self.int_(d - 1)],
+                             [S("zip"), Q(S("vector")), self.seq_(d - 1), self.seq_(d - 1)]])
         return [S("if"), self.bool_(d - 1), self.vec_(d - 1), self.vec_(d - 1)]
 
     def str_(self, d):
@@ -245,6 +249,13 @@ class Gen:
             return [S("if"), self.bool_(d - 1), self.num_(d - 1), self.num_(d - 1)]
         return [[S("lambda"), [S("g")], [S("*"), S("g"), self.num_(d - 1)]], self.num_(d - 1)]
 
+    def tsf_(self, d):
+        """a float the machine tracks exactly: literals on the grid and their sums / differences with ints"""
+        r = self.rnd
+        if d <= 0 or r.random() < 0.5:
+            return r.choice([0.5, 1.5, -2.5, 2.0, 0.0, r.randrange(-3, 6)])
+        return [S(r.choice(["+", "-"])), self.tsf_(d - 1), self.tsf_(d - 1)]
+
     def bool_(self, d):
         r = self.rnd
         if d <= 0:
@@ -261,6 +272,8 @@ class Gen:
                                  [S(r.choice(["any?", "all?"])), [S("lambda"), [S("e")], [S(">"), S("e"), 1]], self.vec_(d - 1)]])
             return [S(r.choice(["float?", "int?", "number?"])), self.num_(d - 1)]
         if c < 2:
+            if r.random() < 0.25:
+                return [S(r.choice(["<", ">", "=", "<=", ">="])), self.tsf_(2), self.tsf_(2)]
             return [S(r.choice(["<", ">", "=", "<=", ">="])), self.int_(d - 1), self.int_(d - 1)]
         if c == 2:
             return [S("and"), self.bool_(d - 1), self.bool_(d - 1)]
@@ -296,6 +309,11 @@ class Gen:
         if c == 7:
             return [S("append"), Q(S("list")), self.list_(d - 1), self.int_(d - 1)]
         if c == 8:
+            if r.random() < 0.5:
+                return r.choice([[S("slice"), Q(S("list")), self.seq_(d - 1), r.randrange(0, 3), r.randrange(0, 4)],
+                                 [S("make-sequence"), self.int_(d - 1), self.int_(d - 1)], [S("make-sequence"), r.randrange(-2, 3), r.randrange(0, 7), r.randrange(0, 4)],
+                                 [S("zip"), Q(S("list")), self.seq_(d - 1), self.seq_(d - 1)], [S("zip"), Q(S("list")), self.list_(d - 1)],
+                                 [S("insert-index"), Q(S("list")), self.seq_(d - 1), r.randrange(0, 4), self.int_(d - 1)]])
             return [S("if"), self.bool_(d - 1), self.list_(d - 1), self.list_(d - 1)]
         return [S("cond"), [self.bool_(d - 1), self.list_(d - 1)], [S(":else"), self.list_(d - 1)]]
 
